@@ -70,3 +70,9 @@ unsafe fn verif_memrchr2_raw(n1: u8, n2: u8, start: *const u8, end: *const u8) -
     }
     None
 }
+
+/// `format!` in error paths only builds message text; the stub returns an empty String (messages are never asserted).
+#[allow(dead_code)]
+fn verif_fmt_format(_args: core::fmt::Arguments<'_>) -> String {
+    String::new()
+}
